@@ -77,7 +77,9 @@ def _cfgs():
     return out
 
 
-@obligation("roundtrip/symbolic_data", params=[{"fft": f, "cp": cp, "used": u} for f, cp, u in _cfgs()], timeout=200,
+@obligation("roundtrip/symbolic_data", params=[{"fft": f, "cp": cp, "used": u} for f, cp, u in _cfgs()] +
+            [{"fft": 8, "cp": cp, "used": u, "_tiers": ("quick", "thorough") if (cp, u) in ((2, 6), (8, 8)) else ("thorough",)}
+             for cp in (0, 2, 3, 8) for u in (2, 6, 8)], timeout=200,
             desc="symbolic data of lengths {1, used, used+1, 2*used}: demodulate(modulate(x)) == x ++ zeros(zeropad); emitted signal has fft+cp "
                  "samples per symbol, prefix == tail copy; carriers outside get_used_subcarrier_indexes are exactly 0 at the IFFT input and "
                  "DC is unused when used < fft")
@@ -136,7 +138,8 @@ def ob_history():
     return verify(body, check_side=False, timeout_ms=60000)
 
 
-CHANNELS = [(4, 2, 4, [0, 1]), (4, 2, 2, [0, 2]), (4, 2, 4, [1, 2]), (4, 1, 4, [1]), (4, 3, 2, [0, 1, 3]), (2, 1, 2, [0, 1]), (4, 2, 4, [0])]
+CHANNELS = [(4, 2, 4, [0, 1]), (4, 2, 2, [0, 2]), (4, 2, 4, [1, 2]), (4, 1, 4, [1]), (4, 3, 2, [0, 1, 3]), (2, 1, 2, [0, 1]), (4, 2, 4, [0]),
+            (8, 3, 6, [0, 1, 3]), (8, 2, 8, [1, 2])]
 
 
 @obligation("equalizer/exact_when_cp_covers_channel", params=[{"fft": f, "cp": cp, "used": u, "delays": "-".join(map(str, d))} for f, cp, u, d in CHANNELS] +
